@@ -254,6 +254,11 @@ def _case(scn, mode, k, t, e, k2=None, rev=False, reg=0, cache=False):
                 problems.append(("check() does not name exactly the invalid directories", p, sorted(named), sorted(invalid)))
             if invalid:
                 detectable = True
+        # P0: without any fault the operation behaves as in the reference run (same exception class or none)
+        if not crashed and not plan.fired:
+            ref_exc = _success_exc(scn, cache)
+            if (type(exc).__name__ if exc is not None else None) != ref_exc:
+                problems.append(("no fault was injected, but the operation ended differently from a fault-free run", type(exc).__name__ if exc else None, ref_exc))
         # P5: a handled I/O error propagates; never a silent partial success
         if mode in (3, 5) and plan.fired and not crashed:
             if exc is None:
@@ -273,6 +278,12 @@ def _case(scn, mode, k, t, e, k2=None, rev=False, reg=0, cache=False):
 
 
 _SUCCESS = {}
+_SUCCESS_EXC = {}
+
+
+def _success_exc(scn, cache=False):
+    _success_view(scn, cache)
+    return _SUCCESS_EXC[(scn, cache)]
 
 
 def _success_view(scn, cache=False):
@@ -281,10 +292,11 @@ def _success_view(scn, cache=False):
         reset_buffers()
         s, op, removal = _setup(scn, cache)
         try:
+            _SUCCESS_EXC[(scn, cache)] = None
             try:
                 op()
-            except Exception:  # noqa  (scenarios that fail by design: collision)
-                pass
+            except Exception as ex_:  # noqa  (scenarios that fail by design: collision)
+                _SUCCESS_EXC[(scn, cache)] = type(ex_).__name__
             _SUCCESS[(scn, cache)] = _view(s.fs)
         finally:
             s.close()
